@@ -28,7 +28,7 @@ chk("C06","fault_enumeration","offline exactly-once checker over the recorded do
  "Held on the executions explored: each mutation root key reached its owner in exactly one mutation request per client request, also with a downstream fault at each sampled call index, with batching limits 1/2/3000 and repeated requests through the plan cache.",
  "Trusted: fake-service event log (append under mutex before answering); log segmentation by client call.","DESIGN.md §5 C06")
 chk("C12","exploration","offline call-count checker over the recorded downstream event log vs plan shape; differential data check",
- "Held on the executions explored: per service, HTTP calls <= plan levels for list lengths 1..300 with heavy entity duplication; no duplicate {id} lookups inside one batch; answers equal the reference.",
+ "Held on the executions explored: per service, HTTP calls carrying fewer requests than the batch limit (C11's chunking) <= plan levels for list lengths 1..300 with heavy entity duplication (answers up to 40 000 objects); no duplicate {id} lookups inside one batch; answers equal the reference.",
  "Trusted: event log; plan obtained from SequentialPlanner.Plan on the same context.","DESIGN.md §5 C12")
 
 chk("C07","exploration","hostile-input runtime monitoring in isolated child processes: panic/process-death monitor, response-shape and status oracles against an independent decoder, canary liveness probe",
@@ -75,7 +75,7 @@ chk("C17","exploration","offline sequence checker over recorded client frames an
  "Trusted: loopback websocket upstream that validates start payloads; quiescence by bounded wait (inconclusive on watchdog).","DESIGN.md §5 C17")
 
 chk("C18","exploration","stress + directed hook schedules over client/upstream action histories with process-liveness, strict frame parser, upstream-connection-closed, goroutine-leak monitors and the race detector",
- "Held on the histories explored (jitter schedules and both orders of every hook-point pair between Close / Listen / upstream reader / handler clean-up): no panic or fatal error, all frames well formed, upstream connections closed after stop and after the connection ended, no subscription goroutine left after the settle bound, no data race.",
+ "Held on the histories explored (jitter schedules, both orders of every hook-point pair between Close / Listen / upstream reader / handler clean-up, and keep-alive ticks landing while events stream over a connection that pauses after every frame header): no panic or fatal error, all frames well formed, upstream connections closed after stop and after the connection ended, no subscription goroutine left after the settle bound, no data race.",
  "Liveness restated as bounded progress (3 s / 8 s after stimuli end). The model-checking half of the quantifier is outside this technique family.","DESIGN.md §5 C18")
 
 claimed=set(C)
